@@ -3,6 +3,8 @@ package main
 import (
 	"fmt"
 	"math/big"
+	"strings"
+	"sync"
 
 	"github.com/onflow/crypto"
 	"github.com/onflow/crypto/hash"
@@ -52,7 +54,60 @@ func genC20(c *Ctx) {
 			}
 		}
 	}
+	genC20conc(c)
 	c.Case("marker", "expect part-B #", "part-B")
 	// ---- part B: BLS12-381 (cgo builds)
 	genC20bls(c)
+}
+
+// genC20conc: the same digests computed by several goroutines at once, each with its own hasher objects (a
+// configuration-specific code path that keeps state outside the hasher - a package-level scratch array in the pure-Go
+// permutation, say - gives wrong digests only when two permutations overlap in time). The transcript lists the
+// results in a fixed order, so it is comparable across configurations and with the model.
+func genC20conc(c *Ctx) {
+	const G = 8
+	perG := 40
+	if c.thorough() {
+		perG = 400
+	}
+	datas := map[string][]byte{}
+	type job struct {
+		algo hashAlgo
+		ops  []string
+	}
+	jobs := make([][]job, G)
+	for g := 0; g < G; g++ {
+		for i := 0; i < perG; i++ {
+			a := hashAlgos[(g+i)%len(hashAlgos)]
+			l := (g*37 + i*13) % (3*a.rate + 2)
+			d := genData(datas, l, 40+g)
+			d2 := genData(datas, (l*7+g)%(2*a.rate), 50+i%5)
+			ops := []string{"w:" + d, "w:" + d2, "s", "r", "c:" + d}
+			if a.oneShot != nil {
+				ops = append(ops, "o:"+d2)
+			}
+			jobs[g] = append(jobs[g], job{a, ops})
+		}
+	}
+	answers := make([][]string, G)
+	start := make(chan struct{})
+	var wg sync.WaitGroup
+	for g := 0; g < G; g++ {
+		answers[g] = make([]string, perG)
+		wg.Add(1)
+		go func(g int) {
+			defer wg.Done()
+			<-start
+			for i, j := range jobs[g] {
+				answers[g][i] = runHashOps(j.algo.mk(), j.algo.oneShot, j.ops, datas)
+			}
+		}(g)
+	}
+	close(start)
+	wg.Wait()
+	for g := 0; g < G; g++ {
+		for i, j := range jobs[g] {
+			c.Case("concurrent-digests/"+j.algo.name, "hash "+j.algo.name+" "+strings.Join(j.ops, " "), answers[g][i])
+		}
+	}
 }
